@@ -30,6 +30,13 @@ ASSUMPTIONS = [
 ]
 TRUSTED = ["joblib/loky process pool as an ordered map"]
 TOL = 1e-12
+# theorems that carry a clause of the property (of 24 in Props/C11.lean); not listed: `rfl` restatements and modelled contracts
+# (skew_consistency, n_jobs_irrelevant, transform_empty), helpers (pixel_matZip_add, ensureIterable_dgm/_coll, effKernel_of_zeroCov,
+# uniform_rect_le_one, prod_rect_le_one)
+CORE_THEOREMS = ["PersimVerif.C11." + n for n in (
+    "image_append", "image_perm", "zero_weight_drops", "zero_weight_filter", "empty_is_zero", "transform_dgm", "transform_coll",
+    "single_vs_collection", "collection_of_singles", "nonneg", "total_le_weight", "nonneg_uniform", "nonneg_zero_cov",
+    "total_le_weight_uniform", "total_le_weight_zero_cov")]
 
 
 def imager(case):
@@ -43,6 +50,22 @@ def arr(d):
 def T(pim, d, skew, **k):
     with np.errstate(all="ignore"):
         return pim.transform(d, skew=skew, **k)
+
+
+def aeq(a, b):
+    """bit-for-bit equality of two images / arrays; a NaN pixel (weight NaN: fractional power of a negative persistence) equals a NaN pixel"""
+    a, b = np.asarray(a), np.asarray(b)
+    return a.shape == b.shape and bool(np.array_equal(a, b, equal_nan=True))
+
+
+def aclose(a, b, atol):
+    a, b = np.asarray(a), np.asarray(b)
+    return a.shape == b.shape and bool(np.allclose(a, b, rtol=0, atol=atol, equal_nan=True))
+
+
+def rel_scale(ws):
+    """total absolute weight (finite ones), NOT floored at 1: with tiny weights an absolute tolerance accepts anything"""
+    return max(1e-300, sum(abs(x) for x in ws if math.isfinite(x)))
 
 
 def total_weight(case, dgm):
@@ -162,8 +185,8 @@ def content_laws(case, pim, d, a):
     if len(d) >= 2:
         k = len(d) // 2
         parts = T(pim, arr(d[:k]), sk) + T(pim, arr(d[k:]), sk)
-        sc = max(1.0, sum(abs(x) for x in total_weight(case, d) if math.isfinite(x)))
-        if not np.allclose(a, parts, rtol=0, atol=TOL * sc):
+        sc = rel_scale(total_weight(case, d))
+        if not aclose(a, parts, TOL * sc):
             return "image of a %d-point diagram is not the sum of the images of its two halves" % len(d)
     c = dict(case); c["dgm"] = d
     bpn, ppn = [float(x) for x in pim._bpnts], [float(x) for x in pim._ppnts]
@@ -185,7 +208,7 @@ def style_laws(case, inp, code, res, nj=None):
         if len(d) == 0:
             return None if not a.any() else "empty diagram gives a non-zero image"
         inside = T(pim, [arr(d)], case["skew"])
-        if not (isinstance(inside, list) and len(inside) == 1 and np.array_equal(inside[0], a)):
+        if not (isinstance(inside, list) and len(inside) == 1 and aeq(inside[0], a)):
             return "image of the diagram alone (n_jobs=%s) differs from its image inside a collection (serial)" % nj
         return content_laws(case, pim, d, a)
     if code[0] != "imgs" or len(code[1]) != len(inp[1]):
@@ -195,7 +218,7 @@ def style_laws(case, inp, code, res, nj=None):
         if a.shape != tuple(res):
             return "image shape %s is not the configured resolution %s" % (a.shape, tuple(res))
         alone = T(pim, arr(d), case["skew"])
-        if not np.array_equal(alone, a):
+        if not aeq(alone, a):
             return "image inside the collection (n_jobs=%s) differs from the image of the diagram alone (serial)" % nj
         f = content_laws(case, pim, d, a)
         if f:
@@ -216,7 +239,7 @@ def laws(ctx):
         B = c04.more_dgm(ctx, case)
         C = c04.more_dgm(ctx, case, n=r.choice([1, 3]))
         wsA, wsB = total_weight(case, A), total_weight(case, B)
-        sc = max(1.0, sum(abs(x) for x in wsA + wsB if math.isfinite(x)))
+        sc = rel_scale(wsA + wsB)
         IA, IB = T(pim, arr(A), sk), T(pim, arr(B), sk)
         bad = []
 
@@ -230,17 +253,17 @@ def laws(ctx):
         ctx.count("kernel:" + case["kind"]); ctx.count("weight:" + case["weight"]["kind"])
         # union = sum
         IU = T(pim, arr(A + B), sk)
-        chk("union_is_sum", np.allclose(IU, IA + IB, rtol=0, atol=TOL * sc))
+        chk("union_is_sum", aclose(IU, IA + IB, TOL * sc))
         # permutation
         perm = list(A + B); r.shuffle(perm)
-        chk("permutation", np.allclose(T(pim, arr(perm), sk), IU, rtol=0, atol=TOL * sc))
+        chk("permutation", aclose(T(pim, arr(perm), sk), IU, TOL * sc))
         # zero-weight points contribute nothing
         zs = zero_weight_points(case, r)
         if zs:
             mixed = list(A)
             for z in zs:
                 mixed.insert(r.randint(0, len(mixed)), z)
-            chk("zero_weight_drops", np.array_equal(T(pim, arr(mixed), sk), IA))
+            chk("zero_weight_drops", aeq(T(pim, arr(mixed), sk), IA))
             ctx.count("zero_weight_cases")
         # empty diagram: zeros of the configured resolution — alone, as [], and inside a collection
         E0, E1 = T(pim, np.zeros((0, 2)), sk), T(pim, [], sk)
@@ -250,20 +273,20 @@ def laws(ctx):
         # alone vs inside a collection (arrays and list-of-lists), order of the collection kept
         coll = T(pim, [arr(A), arr(B), arr(C)], sk)
         IC = T(pim, arr(C), sk)
-        chk("alone_vs_collection", isinstance(coll, list) and len(coll) == 3 and np.array_equal(coll[0], IA)
-            and np.array_equal(coll[1], IB) and np.array_equal(coll[2], IC) and isinstance(IA, np.ndarray) and IA.shape == res)
+        chk("alone_vs_collection", isinstance(coll, list) and len(coll) == 3 and aeq(coll[0], IA)
+            and aeq(coll[1], IB) and aeq(coll[2], IC) and isinstance(IA, np.ndarray) and IA.shape == res)
         lol = T(pim, [list(map(list, A)), list(map(list, C))], sk)
-        chk("list_of_lists_input", isinstance(lol, list) and len(lol) == 2 and np.array_equal(lol[0], IA) and np.array_equal(lol[1], IC)
-            and np.array_equal(T(pim, list(map(list, A)), sk), IA))
+        chk("list_of_lists_input", isinstance(lol, list) and len(lol) == 2 and aeq(lol[0], IA) and aeq(lol[1], IC)
+            and aeq(T(pim, list(map(list, A)), sk), IA))
         # birth-death with skew=True  ==  pre-converted birth-persistence with skew=False
         bd = arr(A) if sk else np.column_stack([arr(A)[:, 0], arr(A)[:, 0] + arr(A)[:, 1]])
         pre = np.column_stack([bd[:, 0], bd[:, 1] - bd[:, 0]])
-        chk("skew_consistency", np.array_equal(T(pim, bd, True), T(pim, pre, False))
-            and np.array_equal(T(pim, [bd, bd], True)[1], T(pim, [pre], False)[0]))
+        chk("skew_consistency", aeq(T(pim, bd, True), T(pim, pre, False))
+            and aeq(T(pim, [bd, bd], True)[1], T(pim, [pre], False)[0]))
         # the argument is not modified (the conversion happens on a private copy)
         keep = arr(A); keep0 = keep.copy()
         T(pim, keep, True); T(pim, [keep], True)
-        chk("argument_untouched", np.array_equal(keep, keep0))
+        chk("argument_untouched", aeq(keep, keep0))
         # non-negative weights: no negative pixel, total at most the total weight
         if all(w >= 0 for w in wsA):
             chk("nonneg", float(IA.min()) >= -TOL * sc)
@@ -275,7 +298,7 @@ def laws(ctx):
                 f1 = p1.fit_transform([arr(A), arr(C)], skew=sk)
                 p2.fit([arr(A), arr(C)], skew=sk)
                 f2 = p2.transform([arr(A), arr(C)], skew=sk)
-            chk("fit_transform_is_fit_then_transform", len(f1) == len(f2) == 2 and all(np.array_equal(x, y) for x, y in zip(f1, f2)))
+            chk("fit_transform_is_fit_then_transform", len(f1) == len(f2) == 2 and all(aeq(x, y) for x, y in zip(f1, f2)))
         if bad:
             ctx.violation("image law fails on the real code: %s" % ", ".join(bad),
                           {"op": "laws", "A": A, "B": B, "C": C, "perm": perm, "zeros": zs, **case}, found_input=True, law=bad)
@@ -324,12 +347,12 @@ def schedules(ctx):
                 serial = T(pim, dgms, case["skew"])
                 with np.errstate(all="ignore"):
                     st, par, _ = call(pim.transform, dgms, skew=case["skew"], n_jobs=nj)
-                ok = st == "ok" and isinstance(par, list) and len(par) == len(serial) and all(np.array_equal(a, b) for a, b in zip(par, serial))
+                ok = st == "ok" and isinstance(par, list) and len(par) == len(serial) and all(aeq(a, b) for a, b in zip(par, serial))
                 # a single diagram through the pool
                 one = T(pim, dgms[0], case["skew"])
                 with np.errstate(all="ignore"):
                     st1, par1, _ = call(pim.transform, dgms[0], skew=case["skew"], n_jobs=nj)
-                ok1 = st1 == "ok" and isinstance(par1, np.ndarray) and np.array_equal(par1, one)
+                ok1 = st1 == "ok" and isinstance(par1, np.ndarray) and aeq(par1, one)
                 ctx.test("n_jobs=%d_bitwise" % nj, ok and ok1)
                 ctx.count("schedule_runs")
                 if not (ok and ok1):
@@ -345,6 +368,7 @@ def schedules(ctx):
 
 
 def run(ctx):
+    ctx.extra["core_theorems"] = CORE_THEOREMS
     ctx.extra["anchored_digest"] = {"images.transform/_ensure_iterable/_transform": common.source_digest(
         "persim/images.py", ["_transform", "transform", "_ensure_iterable", "fit_transform"])}
     cov = common.LineCov(["persim/images.py", "persim/images_weights.py"])
@@ -380,24 +404,24 @@ def replay(ctx, rep):
         dgms = [arr(d) for d in c["dgms"]]
         serial = T(pim, dgms, c["skew"])
         st, par, _ = call(pim.transform, dgms, skew=c["skew"], n_jobs=c["n_jobs"])
-        ok = st == "ok" and len(par) == len(serial) and all(np.array_equal(a, b) for a, b in zip(par, serial))
+        ok = st == "ok" and len(par) == len(serial) and all(aeq(a, b) for a, b in zip(par, serial))
         print("n_jobs=%s vs serial: %s" % (c["n_jobs"], "equal" if ok else "DIFFERENT"))
         return ok
     if op == "laws":
         pim = imager(c)
         sk = c["skew"]
         A, B = c["A"], c["B"]
-        sc = max(1.0, sum(abs(x) for x in total_weight(c, A) + total_weight(c, B) if math.isfinite(x)))
+        sc = rel_scale(total_weight(c, A) + total_weight(c, B))
         IA, IB, IU = T(pim, arr(A), sk), T(pim, arr(B), sk), T(pim, arr(A + B), sk)
         coll = T(pim, [arr(A), arr(B)], sk)
         res = tuple(int(x) for x in pim.resolution)
         E = T(pim, np.zeros((0, 2)), sk)
-        checks = {"union_is_sum": np.allclose(IU, IA + IB, rtol=0, atol=TOL * sc),
-                  "alone_vs_collection": isinstance(coll, list) and np.array_equal(coll[0], IA) and np.array_equal(coll[1], IB),
+        checks = {"union_is_sum": aclose(IU, IA + IB, TOL * sc),
+                  "alone_vs_collection": isinstance(coll, list) and aeq(coll[0], IA) and aeq(coll[1], IB),
                   "empty_is_zero_of_resolution": isinstance(E, np.ndarray) and E.shape == res and not E.any(),
-                  "permutation": np.allclose(T(pim, arr(c.get("perm", A + B)), sk), IU, rtol=0, atol=TOL * sc)}
+                  "permutation": aclose(T(pim, arr(c.get("perm", A + B)), sk), IU, TOL * sc)}
         if c.get("zeros"):
-            checks["zero_weight_drops"] = np.array_equal(T(pim, arr(list(A) + c["zeros"]), sk), IA)
+            checks["zero_weight_drops"] = aeq(T(pim, arr(list(A) + c["zeros"]), sk), IA)
         print("laws:", checks, "(other laws: re-run `./check.py C11` with VERIF_SEED=%s)" % rep.get("seed"))
         return all(checks.values())
     print("correspondence replay: re-run `./check.py C11` with VERIF_SEED=%s" % rep.get("seed"))
@@ -405,18 +429,24 @@ def replay(ctx, rep):
 
 
 MANIFEST = {
-    "text": "Proof, modulo the kernel being the normal CDF (C13's partial part; here the kernel is an arbitrary function and the CDF facts "
-            "are explicit hypotheses): Lean theorems about the model of _transform / _ensure_iterable / transform for diagrams and collections of "
-            "every size: image(A ++ B) = image(A) + image(B) pixelwise, invariance under permutation, zero-weight points drop out, the empty "
-            "diagram gives zeros of the configured resolution (also via the len==0 early return), a diagram alone gives the same image as inside "
-            "a collection at any position (both branches of _ensure_iterable and the IndexError case), skew=True on (b,d) equals skew=False on "
-            "(b,d-b), non-negative weights and rectangle masses give non-negative pixels, and the pixels telescope to the kernel's mass of the whole "
-            "imaged rectangle so the total is at most the total weight. Tied to the code on every run: the model's `transform` executed exactly at "
-            "Rat against the real transform on every call style (exact equality), `_ensure_iterable` against `ensureIterable`, and each law "
-            "evaluated on the real code for all kernel and weight kinds.",
+    "text": "Proof (24 theorems, of which 15 core), for the correlated Gaussian and user kernels modulo the kernel being a CDF (C13's partial "
+            "part; there the CDF facts are explicit hypotheses): Lean theorems about the model of _transform / _ensure_iterable / transform for "
+            "diagrams and collections of every size: image(A ++ B) = image(A) + image(B) pixelwise, invariance under permutation, zero-weight "
+            "points drop out, the empty diagram gives zeros of the configured resolution (also via the len==0 early return), a diagram alone "
+            "gives the same image as inside a collection at any position (both branches of _ensure_iterable and the IndexError case), "
+            "skew=True on (b,d) equals skew=False on (b,d-b) (by construction of the model), non-negative weights and rectangle masses give "
+            "non-negative pixels, and the pixels telescope to the kernel's mass of the whole imaged rectangle so the total is at most the total "
+            "weight. For the uniform kernel and for the Gaussian kernel with zero covariance (fast path and general path, every monotone Phi "
+            "into [0,1]) the two CDF hypotheses are discharged by C13's theorems: nonneg_uniform, nonneg_zero_cov, total_le_weight_uniform, "
+            "total_le_weight_zero_cov hold with no kernel hypothesis. Tied to the code on every run: the model's `transform` executed exactly "
+            "at Rat against the real transform on every call style (exact equality), `_ensure_iterable` against `ensureIterable`, and each "
+            "law evaluated on the real code for all kernel and weight kinds, including diagrams with points below the diagonal.",
     "note": "Trusted: Lean kernel + Mathlib (axioms propext/Classical.choice/Quot.sound); the correspondence harness; joblib.Parallel as an ordered "
             "map. 'Processed serially or by parallel workers, every n_jobs / worker scheduling' is runtime behaviour the functional model cannot "
             "exhibit: it is covered ONLY by the [T] schedule stream (n_jobs in {1,2,4}, thorough also {3,8,16}, collections of 1-17 diagrams, "
-            "bit-for-bit against the serial result). Float rounding is outside the theorems (additivity / permutation compared to 1e-12 x total weight).",
+            "bit-for-bit against the serial result). Non-negativity and total <= total weight for the CORRELATED Gaussian (bvn_cdf) rest on "
+            "the hypotheses of `nonneg` / `total_le_weight` and are covered by the [T] streams `nonneg` / `total_le_weight` only. Float "
+            "rounding is outside the theorems (additivity / permutation compared to 1e-12 x total absolute weight, no floor at 1; NaN images "
+            "from a fractional power of a negative persistence compared as NaN).",
     "technique": "Lean 4 theorems over a hand-written model + exact differential correspondence + metamorphic tests on the real code",
 }
